@@ -70,6 +70,14 @@ def register(reg):
         ("TimeoutError", "OSError"),
         ("socket.timeout", "OSError"),
         ("ssl.SSLError", "OSError"),
+        ("BlockingIOError", "OSError"),
+        ("InterruptedError", "OSError"),
+        ("ConnectionError", "OSError"),
+        ("BrokenPipeError", "ConnectionError"),
+        ("ConnectionAbortedError", "ConnectionError"),
+        ("ConnectionRefusedError", "ConnectionError"),
+        ("FileNotFoundError", "OSError"),
+        ("PermissionError", "OSError"),
         ("ImportError", "Exception"),
         ("StopIteration", "Exception"),
         ("StopAsyncIteration", "Exception"),
